@@ -29,7 +29,7 @@ SELFTEST = [
     {"mutation": "(pre-fix code) length byte `vec![value.len() as u8]`", "caught_by": "txt/length byte is the length of the escaped string"},
     {"mutation": "(pre-fix constants) MAX_TXT_RECORD_SIZE = 255 + 45, MAX_RECORDS_PER_PACKET = (MAX_PACKET_SIZE - 100) / 300", "caught_by": "size/MAX_TXT_RECORD_SIZE covers the largest record append_txt_record can emit + size/largest packet fits MAX_PACKET_SIZE"},
     {"mutation": "append_txt_record: `string_len > MAX_TXT_VALUE_LENGTH` -> `>=`-free variant `string_len > MAX_TXT_VALUE_LENGTH + 1`", "caught_by": "txt/oversize strings are rejected before the length byte is written"},
-    {"mutation": "build_query_response: `records.len() == MAX_RECORDS_PER_PACKET` -> `>`", "caught_by": "size/packet is cut as soon as MAX_RECORDS_PER_PACKET records are collected"},
+    {"mutation": "build_query_response: `records.len() == MAX_RECORDS_PER_PACKET` -> `>`", "caught_by": "size/the batch is cut at exactly MAX_RECORDS_PER_PACKET records"},
     {"mutation": "generate_peer_name: random_string(40 + random_range(0..32))", "caught_by": "size/peer name label satisfies append_qname's assertions"},
     {"mutation": "MAX_PACKET_SIZE = 9000", "caught_by": "size/MAX_PACKET_SIZE leaves room for IP and UDP headers"},
     {"mutation": "MdnsPeer::new: mismatching peer id accepted (`peer_id != *pid` branch removed)", "caught_by": "decode/an address is kept only if its peer id equals the first one seen"},
@@ -38,6 +38,7 @@ SELFTEST = [
     {"mutation": "append_character_string: backslash escaped with a single backslash", "caught_by": "txt/escape table"},
     {"mutation": "query_response_packet: header writes peer_id twice", "caught_by": "size/every header byte of query_response_packet is accounted for"},
     {"mutation": "build_query_response: a record is pushed on the Err arm as well", "caught_by": "encode/only successfully encoded records are sent"},
+    {"mutation": "(neutral, must stay silent) parameters/locals renamed (value, buffer, records), `MAX <= batch.len()`, swapped `!=` operands and renamed closure parameter in MdnsPeer::new; /verif/neutral/mux/10.diff", "caught_by": "silent"},
 ]
 
 
@@ -53,15 +54,14 @@ def check(ctx):
     old = mir.RENDER_MAX[0]
     mir.RENDER_MAX[0] = 40
     try:
-        _encode(ctx)
-        _decode(ctx)
+        lib_mux.sections(ctx, _encode, _decode)
     finally:
         mir.RENDER_MAX[0] = old
 
 
 def _pushes_of_helper(ctx, name):
     """Number of bytes a straight-line helper (append_u16 / append_u32) appends: its Vec::push(out, _) count on all paths."""
-    b = ctx.body(MD, r"iface::dns::%s$" % name)
+    b = lib_mux.canon_args(ctx.body(MD, r"iface::dns::%s$" % name), ["out", "value"])
     ps = [s for s in b.call_sites(r"Vec::push$") if render(b.site_expr(s)[2][0]) == "out"]
     others = [s for s in b.call_sites(r"Vec::(extend_from_slice|extend|insert|append|resize)$")]
     rng = _count_on_all_paths(b, ps, b.return_blocks())
@@ -79,7 +79,7 @@ def _encode(ctx):
     ctx.ob("size", "append_u16 appends 2 bytes and append_u32 4 bytes on every path", (n16, n32) == (2, 4), _w(b16), "append_u16: %s, append_u32: %s" % (n16, n32))
 
     # ------------------------------------------------------------------ append_txt_record: the length byte
-    tr = ctx.body(MD, r"iface::dns::append_txt_record$")
+    tr = lib_mux.canon_args(ctx.body(MD, r"iface::dns::append_txt_record$"), ["out", "name", "ttl_secs", "value"])
     acs = tr.call_sites(r"iface::dns::append_character_string$")
     ctx.floor("txt", "append_character_string call", acs, 1, exact=True)
     BUF = render(tr.site_expr(acs[0])[2][0])
@@ -120,14 +120,14 @@ def _encode(ctx):
         ctx.ob("txt", "length byte counts the string without the length byte itself", r == "SubWithOverflow(std::vec::Vec::len(%s), 1).0" % BUF, s.loc(), r)
         idx = [x for x in tr.call_sites(r"IndexMut>::index_mut$") if render(tr.site_expr(x)) == "<std::vec::Vec as std::ops::IndexMut>::index_mut(%s, 0)" % BUF]
         ctx.ob("txt", "the length byte is stored in front of the string", bool(idx) and tr.dominates(idx[0].bb, s.bb), s.loc(), "buffer[0] = len")
-        rej = lib.strict_limit_edges(tr, "^%s$" % re.escape(r), r"^const:libp2p_mdns::behaviour::iface::dns::MAX_TXT_VALUE_LENGTH$")
-        le, lt, found = lib_mux.accept_edges_le(tr, lambda t: t == r, lambda t: t == "const:" + D + "MAX_TXT_VALUE_LENGTH")
-        ctx.ob("txt", "oversize strings are rejected before the length byte is written", bool(le | lt) and tr.must_pass_edges(s.bb, le | lt), s.loc(),
-               "dominated by `escaped_len <= MAX_TXT_VALUE_LENGTH` (tests found: %s)" % [o for _, o, _ in found])
+        lrel = lib_mux.rel_edges(tr, lambda x: render(x) == r, lambda e: lib_mux.cval(e) == C["MAX_TXT_VALUE_LENGTH"], ctx.prog)
+        acc = lib_mux.edges_with(lrel, {"le", "lt"})
+        ctx.ob("txt", "oversize strings are rejected before the length byte is written", bool(acc) and tr.must_pass_edges(s.bb, acc), s.loc(),
+               "dominated by `escaped_len <= MAX_TXT_VALUE_LENGTH` (relations found: %s)" % sorted({x["rel"] for x in lrel}))
         z = lib_mux.zero_assigns(tr)
+        over = lib_mux.edges_with(lrel, {"gt"})
         for bb, val in z.items():
             if "TxtRecordTooLong" in val:
-                over = tr.guard_edges(lambda c, rr, l: (l == "true" and rr == "Gt(%s, const:%sMAX_TXT_VALUE_LENGTH)" % (r, D)) or (l == "false" and rr == "Le(%s, const:%sMAX_TXT_VALUE_LENGTH)" % (r, D)))
                 ctx.ob("txt", "TxtRecordTooLong only for strings longer than 255 bytes", bool(over) and tr.must_pass_edges(bb, over), _w(tr), "dominated by escaped_len > MAX_TXT_VALUE_LENGTH")
     rd = [s for s in tr.call_sites(r"iface::dns::append_u16$")]
     ext = [s for s in tr.call_sites(r"Vec::extend_from_slice$") if render(tr.site_expr(s)[2][0]) == "out"]
@@ -137,17 +137,33 @@ def _encode(ctx):
     ctx.ob("txt", "RDLENGTH is the length of the data that follows", len(rdl) == 1 and len(data) == 1 and tr.dominates(rdl[0].bb, data[0].bb) and (LENV is None or tr.dominates(LENV[0].bb, rdl[0].bb)),
            rdl[0].loc() if rdl else _w(tr), "append_u16(out, buffer.len()) then out.extend_from_slice(&buffer), after the length byte was fixed")
     # escape table
-    cs = ctx.body(MD, r"iface::dns::append_character_string$")
+    cs = lib_mux.canon_args(ctx.body(MD, r"iface::dns::append_character_string$"), ["out", "ascii_str"])
     table = {}
     for s in cs.call_sites(r"Vec::push$"):
         e = cs.site_expr(s)
-        gs = cs.guards_on_all_paths(s.bb)
-        chr_guard = [(t, sorted(ls)) for t, ls, _, c in gs if re.match(r"^Eq\(.*next\(iter\)@Some\.0, \d+\)$", t)]
-        key = tuple(sorted((int(re.search(r", (\d+)\)$", t).group(1)), ls[0]) for t, ls in chr_guard))
-        table.setdefault(key, []).append(render(e[2][1])[-30:])
-    want = {(): ["34", "34"], ((92, "true"),): ["92", "92"], ((34, "true"), (92, "false")): ["92", "34"]}
-    other = [k for k in table if k not in want]
-    ctx.ob("txt", "escape table", all(table.get(k) == v for k, v in want.items()) and len(other) == 1 and table[other[0]][0].endswith("next(iter)@Some.0"), _w(cs),
+        val = e[2][1]
+        cls = None            # which input byte this push handles: 92, 34, "other" (inside the loop), "quote" (outside)
+        inloop = False
+        for t, ls, _, c in cs.guards_on_all_paths(s.bb):
+            cm = lib_mux._cmp_of(c)
+            if cm and cm[0] in ("eq", "ne") and lib_mux.cval(cm[2]) is not None and "Iterator>::next(" in render(cm[1]):
+                inloop = True
+                holds = ("true" in ls) == (cm[0] == "eq")
+                if holds and ls in (frozenset(["true"]), frozenset(["false"])):
+                    cls = lib_mux.cval(cm[2])
+            elif "Iterator>::next(" in t and t.endswith("@Some.0") and all(isinstance(l, int) or l == "otherwise" for l in ls):
+                inloop = True
+                ints = [l for l in ls if isinstance(l, int)]
+                if len(ints) == 1 and "otherwise" not in ls:
+                    cls = ints[0]
+            elif t.startswith("discr(") and "Iterator>::next(" in t and "Some" in ls:
+                inloop = True
+        if cls is None:
+            cls = "other" if inloop else "quote"
+        v = lib_mux.cval(val)
+        table.setdefault(cls, []).append(v if v is not None else ("<byte>" if "Iterator>::next(" in render(val) else render(val)[-30:]))
+    want = {"quote": [34, 34], 92: [92, 92], 34: [92, 34], "other": ["<byte>"]}
+    ctx.ob("txt", "escape table", table == want, _w(cs),
            "quotes around, `\\\\`->`\\\\\\\\`, `\"`->`\\\\\"`, other bytes verbatim: %s" % {str(k): v for k, v in table.items()})
     z = lib_mux.zero_assigns(cs)
     for bb, val in z.items():
@@ -170,19 +186,40 @@ def _encode(ctx):
     gp = ctx.body(MD, r"iface::dns::generate_peer_name$")
     rs = gp.call_sites(r"iface::dns::random_string$")
     ctx.floor("size", "random_string call", rs, 1, exact=True)
-    arg = render(gp.site_expr(rs[0])[2][0])
-    m = re.match(r"^AddWithOverflow\((\d+), rand::random_range\(std::ops::Range::Range\{start: (\d+), end: (\d+)\}\)\)\.0$", arg)
-    lo = hi = None
-    if m:
-        a, s0, e0 = map(int, m.groups())
-        lo, hi = a + s0, a + e0 - 1
-    ctx.ob("size", "peer name length bounds are readable from generate_peer_name", m is not None and e0 > s0, rs[0].loc(), "random_string(%s) -> label length in [%s, %s]" % (arg[-70:], lo, hi))
+    argx = gp.site_expr(rs[0])[2][0]
+    arg = render(argx)
+
+    def _range(e):
+        """(lo, hi) of `rand::random_range(a..b)` / `a..=b`."""
+        if e[0] == "call" and mir.strip_generics(e[1]).endswith("random_range") and e[2] and e[2][0][0] == "agg":
+            f = dict(e[2][0][4])
+            a_, b_ = lib_mux.cval(f.get("start", ("unknown", "?"))), lib_mux.cval(f.get("end", ("unknown", "?")))
+            if a_ is not None and b_ is not None:
+                return (a_, b_ if "RangeInclusive" in mir.strip_generics(e[2][0][2] or "") else b_ - 1)
+        return None
+
+    def _bounds(e):
+        if lib_mux.cval(e) is not None:
+            return (lib_mux.cval(e), lib_mux.cval(e))
+        if _range(e):
+            return _range(e)
+        if e[0] == "field" and e[2] == "0" and e[1][0] == "bin" and e[1][1] == "AddWithOverflow":
+            e = ("bin", "Add", e[1][2], e[1][3])
+        if e[0] == "bin" and e[1] == "Add":
+            x, y = _bounds(e[2]), _bounds(e[3])
+            if x and y:
+                return (x[0] + y[0], x[1] + y[1])
+        return None
+    bd = _bounds(argx)
+    lo, hi = bd if bd else (None, None)
+    ctx.ob("size", "peer name length bounds are readable from generate_peer_name", bd is not None and hi >= lo, rs[0].loc(), "random_string(%s) -> label length in [%s, %s]" % (arg[-70:], lo, hi))
     qn = gp.call_sites(r"iface::dns::append_qname$")
     ctx.ob("size", "the peer name is the QNAME of that single random label", len(qn) == 1 and render(gp.site_expr(qn[0])[2][1]) == "std::string::String::as_bytes(%s)" % render(gp.site_expr(rs[0])) and
            [render(gp.rvalue_expr(d[3])) for d in gp.defs.get(0, []) if d[0] == "stmt"] == [render(gp.site_expr(qn[0])[2][0])], qn[0].loc() if qn else _w(gp), "append_qname(&mut peer_name_bytes, peer_name.as_bytes()); peer_name_bytes")
-    aq = ctx.body(MD, r"iface::dns::append_qname$")
-    lim = [render(aq.switch_info(bi)[0]) for bi in sorted(aq.live) if aq.switch_info(bi) and re.match(r"^Lt\(core::slice::len\(.*\), (\d+)\)$", render(aq.switch_info(bi)[0]))]
-    maxlabel = int(re.search(r", (\d+)\)$", lim[0]).group(1)) if len(lim) == 1 else None
+    aq = lib_mux.canon_args(ctx.body(MD, r"iface::dns::append_qname$"), ["out", "name"])
+    lrel = lib_mux.rel_edges(aq, lambda e: render(e).startswith("core::slice::len("), lambda e: (lib_mux.cval(e) or 0) > 0)
+    lims = sorted({lib_mux.cval(x["rhs"]) + (1 if x["rel"] == "le" else 0) for x in lrel if x["rel"] in ("lt", "le")})
+    maxlabel = lims[0] if len(lims) == 1 else None
     ctx.ob("size", "peer name label satisfies append_qname's assertions", lo is not None and maxlabel is not None and 0 < lo and hi < maxlabel, _w(aq), "label length in [%s, %s], append_qname asserts 0 < len < %s" % (lo, hi, maxlabel))
     name_max = (hi + 2) if hi is not None else None
     rec_fixed = (parts["push"][1] + n32 * parts["u32"][1] + n16 * parts["u16"][1]) if exact and n16 and n32 else None
@@ -191,7 +228,7 @@ def _encode(ctx):
            "derived: name <= %s, fixed fields %s, string 1 + %s  => %s bytes; MAX_TXT_RECORD_SIZE = %s" % (name_max, rec_fixed, C["MAX_TXT_VALUE_LENGTH"], rec_max, C["MAX_TXT_RECORD_SIZE"]))
 
     # ------------------------------------------------------------------ derived header size + packet cutting
-    qp = ctx.body(MD, r"iface::dns::query_response_packet$")
+    qp = lib_mux.canon_args(ctx.body(MD, r"iface::dns::query_response_packet$"), ["id", "peer_id", "records", "ttl"])
     loops = [s for s in qp.call_sites(r"Iterator>::next$")]
     head = loops[0].bb if loops else None
     pre = qp.reachable([0], stop_nodes=[head]) if head is not None else set()
@@ -203,27 +240,38 @@ def _encode(ctx):
     body_ext = [s for s in qp.call_sites(r"Vec::extend_from_slice$") if s.bb not in pre]
     sn = prog.const(MD, r"^libp2p_mdns::SERVICE_NAME$").get("s")
     straight = head is not None and all(len(qp.succ[b]) <= 1 for b in pre if b != head)
-    ok_h = straight and len(hq) == 1 and render(qp.site_expr(hq[0])[2][1]) == "const:libp2p_mdns::SERVICE_NAME" and len(hx) == 1 and render(qp.site_expr(hx[0])[2][1]) == "peer_id" and isinstance(sn, str)
+    ok_h = straight and len(hq) == 1 and render(qp.site_expr(hq[0])[2][1]) in ("const:libp2p_mdns::SERVICE_NAME", repr(sn)) and len(hx) == 1 and render(qp.site_expr(hx[0])[2][1]) == "peer_id" and isinstance(sn, str)
     hdr_max = (n16 * len(h16) + n32 * len(h32) + len(hp) + len(sn) + 2 + name_max) if ok_h and name_max is not None else None
     ctx.ob("size", "every header byte of query_response_packet is accounted for", ok_h, _w(qp), "%d x u16, %d x u32, QNAME(SERVICE_NAME = %r), peer name; then one extend_from_slice per record" % (len(h16), len(h32), sn))
-    ctx.ob("size", "the packet body is exactly the records", len(body_ext) == 1 and render(qp.site_expr(body_ext[0])[2][1]).endswith("next(iter)@Some.0)") and "records" in render(qp.site_expr(loops[0])) or
-           (len(body_ext) == 1 and render(qp.rvalue_expr(qp.defs[lib.local_by_name(qp, "iter")][0][3])) == "core::slice::iter::into_iter(records)"), _w(qp), "for record in records { out.extend_from_slice(record) }")
-    bq = ctx.body(MD, r"iface::dns::build_query_response$")
-    rpush = [s for s in bq.call_sites(r"Vec::push$") if render(bq.site_expr(s)[2][0]) == "records"]
+    ctx.ob("size", "the packet body is exactly the records", len(body_ext) == 1 and "Iterator>::next(" in render(qp.site_expr(body_ext[0])[2][1]) and len(loops) == 1 and
+           any(render(qp.rvalue_expr(d[3])).endswith("(records)") for l_ in [x[1] for x in mir.walk(qp.site_expr(loops[0])) if x[0] == "local"] for d in qp.defs.get(l_, []) if d[0] == "stmt"),
+           _w(qp), "for record in records { out.extend_from_slice(record) }")
+    bq = lib_mux.canon_args(ctx.body(MD, r"iface::dns::build_query_response$"), ["id", "peer_id", "addresses", "ttl"])
+    pk0 = bq.call_sites(r"iface::dns::query_response_packet$")
+    RECS = None
+    for s_ in pk0:          # the batch vector = the (named, growing) vector handed to query_response_packet
+        m_ = re.match(r"^<std::vec::Vec as std::ops::Deref>::deref\((\w+)\)$", render(bq.site_expr(s_)[2][2]))
+        if m_:
+            RECS = m_.group(1)
+    if RECS is None:
+        raise mir.RuleError("build_query_response: the record batch passed to query_response_packet is not a named vector")
+    rpush = [s for s in bq.call_sites(r"Vec::push$") if render(bq.site_expr(s)[2][0]) == RECS]
     ctx.floor("size", "records.push", rpush, 1, exact=True)
-    MAXR = "const:" + D + "MAX_RECORDS_PER_PACKET"
-    cut = [bi for bi in sorted(bq.live) if bq.switch_info(bi) and render(bq.switch_info(bi)[0]) in ("Eq(std::vec::Vec::len(records), %s)" % MAXR, "Ge(std::vec::Vec::len(records), %s)" % MAXR)]
+    crel = lib_mux.rel_edges(bq, lambda e: render(e) == "std::vec::Vec::len(%s)" % RECS, lambda e: lib_mux.cval(e) == C["MAX_RECORDS_PER_PACKET"], ctx.prog)
+    cut = sorted({x["switch"] for x in crel})
     ctx.floor("size", "`records.len() == MAX_RECORDS_PER_PACKET` test", cut, 1, exact=True)
+    full_e = lib_mux.edges_with(crel, {"eq", "ge"})
+    ctx.ob("size", "the batch is cut at exactly MAX_RECORDS_PER_PACKET records", bool(full_e) and not lib_mux.edges_with(crel, {"gt"}), _w(bq), "relations on the test's edges: %s" % sorted({x["rel"] for x in crel}))
     if cut and rpush:
         nxt = bq.reachable(bq.succ[rpush[0].bb], blocked_nodes=cut)
         ctx.ob("size", "packet is cut as soon as MAX_RECORDS_PER_PACKET records are collected", rpush[0].bb not in nxt, rpush[0].loc(),
                "no path from one records.push to the next avoids the `len == MAX_RECORDS_PER_PACKET` test")
-        full = [t for t, ls in bq.switch_info(cut[0])[1].items() if "true" in ls]
-        clr = [s for s in bq.call_sites(r"Vec::clear$") if render(bq.site_expr(s)[2][0]) == "records"]
+        full = sorted({t for _, t in full_e})
+        clr = [s for s in bq.call_sites(r"Vec::clear$") if render(bq.site_expr(s)[2][0]) == RECS]
         pk = [s for s in bq.call_sites(r"iface::dns::query_response_packet$")]
         ok = bool(full) and bool(clr) and bq.must_pass_nodes(full, lib.bbs(rpush) + bq.return_blocks(), lib.bbs(clr)) and any(bq.dominates(p.bb, clr[0].bb) and p.bb in bq.reachable(full) for p in pk)
         ctx.ob("size", "a full batch is emitted as one packet and the batch is cleared", ok, mir.Site(bq, cut[0]).loc(), "query_response_packet(.., &records, ..) then records.clear() on the `== MAX` edge")
-        inits = sorted(render(bq.init_expr(k)) for k, v in bq.names.items() if v == "records")
+        inits = sorted(render(bq.init_expr(k)) for k, v in bq.names.items() if v == RECS)
         ctx.ob("size", "the batch starts empty", len(inits) == 1 and (inits[0].startswith("std::vec::Vec::with_capacity(") or inits[0] == "std::vec::Vec::new()"), _w(bq), str([i[:40] for i in inits]))
     total = (hdr_max + C["MAX_RECORDS_PER_PACKET"] * rec_max) if hdr_max is not None and rec_max is not None and isinstance(C["MAX_RECORDS_PER_PACKET"], int) else None
     ctx.ob("size", "largest packet fits MAX_PACKET_SIZE", total is not None and total <= C["MAX_PACKET_SIZE"] and C["MAX_RECORDS_PER_PACKET"] >= 1, _w(bq),
@@ -235,7 +283,7 @@ def _encode(ctx):
         e = bq.site_expr(s)
         ctx.ob("encode", "every TXT record is owned by the generated peer name", render(e[2][1]) == "<std::vec::Vec as std::ops::Deref>::deref(%s)" % GEN, s.loc(), render(e[2][1])[-80:])
         v = render(e[2][3])
-        ctx.ob("encode", "TXT value is `dnsaddr=<addr>/p2p/<peer id>`", "const b\"\\x08dnsaddr=\\xc0\\x05/p2p/\\xc0\\x00\"" in v and "new_display(<std::iter::Take as std::iter::Iterator>::next(iter)@Some.0)" in v and "new_display(libp2p_core::PeerId::to_base58(peer_id))" in v, s.loc(), v[:200][-120:])
+        ctx.ob("encode", "TXT value is `dnsaddr=<addr>/p2p/<peer id>`", "const b\"\\x08dnsaddr=\\xc0\\x05/p2p/\\xc0\\x00\"" in v and re.search(r"new_display\(<[^()]+ as std::iter::Iterator>::next\(\w+\)@Some\.0\)", v) is not None and "new_display(libp2p_core::PeerId::to_base58(peer_id))" in v, s.loc(), v[:200][-120:])
         okr = lib.switch_edges_on_site(bq, s, {"Ok"})
         for p in rpush:
             ctx.ob("encode", "only successfully encoded records are sent", bool(okr) and bq.must_pass_edges(p.bb, okr) and render(bq.site_expr(p)[2][1]) == render(e[2][0]), p.loc(), "records.push(txt_record) on the Ok edge of append_txt_record(&mut txt_record, ..)")
@@ -244,29 +292,48 @@ def _encode(ctx):
         ctx.ob("encode", "the PTR answer points at the same peer name", render(e[2][1]) == "<std::vec::Vec as std::ops::Deref>::deref(%s)" % GEN, s.loc(), render(e[2][1])[-80:])
 
 
+def _child_with(prog, parent, pred, what):
+    hits = [c for c in prog.children(parent) if pred(c)]
+    if len(hits) != 1:
+        raise mir.RuleError("%s: expected one closure of %s, found %d" % (what, parent.short, len(hits)))
+    return hits[0]
+
+
 def _decode(ctx):
     prog = ctx.prog
-    rn = ctx.body(MD, r"iface::query::MdnsResponse::new::\{closure#0\}$")
+    rnew = ctx.body(MD, r"iface::query::MdnsResponse::new$")
+    pnew = ctx.body(MD, r"iface::query::MdnsPeer::new$")
+    # closures are located by what they do, not by their index
+    rn = _child_with(prog, rnew, lambda c: bool(c.call_sites(r"iface::query::MdnsPeer::new$")), "answer filter")
+    lib_mux.canon_args(rn, ["env", "record"])
+    lib_mux.canon_upvars(rn, ["packet"])
     mp = rn.call_sites(r"iface::query::MdnsPeer::new$")
     ctx.floor("decode", "MdnsPeer::new call", mp, 1, exact=True)
     for s in mp:
-        ctx.guarded("decode", "only answers for the libp2p service name are followed", s, lambda c, r, l: l == "false" and r == "<std::string::String as std::cmp::PartialEq>::ne(<T as std::string::ToString>::to_string(record.name), const:libp2p_mdns::SERVICE_NAME_FQDN)", "record.name == SERVICE_NAME_FQDN")
+        _, ne_ = lib_mux.eq_edges(rn, lambda t: t.endswith("to_string(record.name)") or t == "record.name", lambda t: t == "const:libp2p_mdns::SERVICE_NAME_FQDN")
+        eq_, _ = lib_mux.eq_edges(rn, lambda t: t.endswith("to_string(record.name)") or t == "record.name", lambda t: t == "const:libp2p_mdns::SERVICE_NAME_FQDN")
+        ctx.ob("decode", "only answers for the libp2p service name are followed", bool(eq_) and rn.must_pass_edges(s.bb, eq_), s.loc(), "record.name == SERVICE_NAME_FQDN")
         ctx.guarded("decode", "only PTR answers are followed", s, lambda c, r, l: l == "PTR" and r == "discr(record.data)", "record.data is PTR")
         e = rn.site_expr(s)
-        ctx.ob("decode", "the peer is looked up under the PTR target, in the same packet", render(e[2][0]) == "^*packet" and render(e[2][1]).endswith("deref(record.data@PTR.0)"), s.loc(), render(e)[-120:])
+        ctx.ob("decode", "the peer is looked up under the PTR target, in the same packet", render(e[2][0]) in ("^*packet", "^packet") and "record.data@PTR.0" in render(e[2][1]), s.loc(), render(e)[-120:])
     sf, sn = prog.const(MD, r"^libp2p_mdns::SERVICE_NAME_FQDN$").get("s"), prog.const(MD, r"^libp2p_mdns::SERVICE_NAME$").get("s")
     ctx.ob("decode", "the decoded service name is the encoded one, fully qualified", isinstance(sf, str) and sf == (sn or "") + ".", msg="%r vs %r" % (sf, sn))
-    c0 = ctx.body(MD, r"iface::query::MdnsPeer::new::\{closure#0\}$")
+    c0 = _child_with(prog, pnew, lambda c: any("TXT" in ls for bi in c.live for info in [c.switch_info(bi)] if info for ls in info[1].values()), "additional-record filter")
+    lib_mux.canon_args(c0, ["env", "add_record"])
+    lib_mux.canon_upvars(c0, ["record_value"])
     for s in c0.agg_sites(r"^std::option::Option$", "Some"):
-        ctx.guarded("decode", "only additionals owned by the PTR target are read", s, lambda c, r, l: l == "false" and r == "std::cmp::impls::ne(add_record.name, ^record_value)", "add_record.name == record_value")
+        eq_, _ = lib_mux.eq_edges(c0, lambda t: t == "add_record.name", lambda t: t in ("^record_value", "^*record_value"))
+        ctx.ob("decode", "only additionals owned by the PTR target are read", bool(eq_) and c0.must_pass_edges(s.bb, eq_), s.loc(), "add_record.name == record_value")
         ctx.guarded("decode", "only TXT additionals are read", s, lambda c, r, l: l == "TXT" and r == "discr(add_record.data)", "add_record.data is TXT")
-    c2 = ctx.body(MD, r"iface::query::MdnsPeer::new::\{closure#2\}$")
+    c2 = _child_with(prog, pnew, lambda c: bool(c.call_sites(r"iface::dns::decode_character_string$")), "TXT string decoder")
+    lib_mux.canon_args(c2, ["env", "txt"])
+    lib_mux.canon_upvars(c2, ["my_peer_id"])
     somes = c2.agg_sites(r"^std::option::Option$", "Some")
     ctx.floor("decode", "accepted address", somes, 1, exact=True)
-    sw = [bi for bi in sorted(c2.live) if c2.switch_info(bi) and render(c2.switch_info(bi)[0]).startswith("core::slice::starts_with(")]
+    sw = [bi for bi in sorted(c2.live) if c2.switch_info(bi) and "core::slice::starts_with(" in render(c2.switch_info(bi)[0])]
     lit = None
     if sw:
-        m = re.search(r', const b"([^"]*)"\)$', render(c2.switch_info(sw[0])[0]))
+        m = re.search(r', const b"([^"]*)"\)\)?$', render(c2.switch_info(sw[0])[0]))
         lit = m.group(1) if m else None
     idx = [s for s in c2.call_sites(r"core::slice::index::index$|ops::Index>::index$")]
     off = None
@@ -274,24 +341,35 @@ def _decode(ctx):
         m = re.search(r"RangeFrom::RangeFrom\{start: (\d+)\}\)$", render(c2.site_expr(idx[0])))
         off = int(m.group(1)) if m else None
     ctx.ob("decode", "prefix literal, its test and the slice offset agree", lit == "dnsaddr=" and off == len(lit or ""), mir.Site(c2, sw[0]).loc() if sw else _w(c2), "starts_with(%r), slice [%s..]; encoder writes %r" % (lit, off, "dnsaddr="))
+    pops = c2.call_sites(r"Multiaddr::pop$")
+    ADDR = render(c2.site_expr(pops[0])[2][0]) if len(pops) == 1 else "addr"
+    POP = render(c2.site_expr(pops[0])) if len(pops) == 1 else "?"
+    MY = "^my_peer_id"
     for s in somes:
-        ctx.guarded("decode", "an address is kept only if it carries the dnsaddr= prefix", s, lambda c, r, l: l == "true" and r.startswith("core::slice::starts_with("), "addr.starts_with(b\"dnsaddr=\")")
-        ctx.guarded("decode", "an address is kept only if its last component is /p2p/<id>", s, lambda c, r, l: l == "P2p" and r == "discr(libp2p_core::Multiaddr::pop(addr)@Some.0)", "addr.pop() == Some(P2p(_))")
-        same = c2.guard_edges(lambda c, r, l: (l == "false" and r == "std::cmp::PartialEq::ne(libp2p_core::Multiaddr::pop(addr)@Some.0@P2p.0, ^my_peer_id@Some.0)") or (l == "None" and r == "discr(^my_peer_id)"))
+        ctx.guarded("decode", "an address is kept only if it carries the dnsaddr= prefix", s, lambda c, r, l: "core::slice::starts_with(" in r and ((l == "true" and not r.startswith("Not(")) or (l == "false" and r.startswith("Not("))), "addr.starts_with(b\"dnsaddr=\")")
+        ctx.guarded("decode", "an address is kept only if its last component is /p2p/<id>", s, lambda c, r, l: l == "P2p" and r == "discr(%s@Some.0)" % POP, "addr.pop() == Some(P2p(_))")
+        same, _ = lib_mux.eq_edges(c2, lambda t: t == POP + "@Some.0@P2p.0", lambda t: t == MY + "@Some.0")
+        same = same | lib_mux.none_edges(c2, MY)
         ctx.ob("decode", "an address is kept only if its peer id equals the first one seen", bool(same) and c2.must_pass_edges(s.bb, same), s.loc(), "peer_id == *my_peer_id, or my_peer_id was None")
-        rep = c2.call_sites(r"Option::replace$")
-        none_e = c2.guard_edges(lambda c, r, l: l == "None" and r == "discr(^my_peer_id)")
-        ctx.ob("decode", "the first id seen is remembered", len(rep) == 1 and render(c2.site_expr(rep[0])) == "std::option::Option::replace(^my_peer_id, libp2p_core::Multiaddr::pop(addr)@Some.0@P2p.0)" and
-               not (s.bb in c2.reachable([t for _, t in none_e], blocked_nodes=lib.bbs(rep))), s.loc(), "my_peer_id.replace(peer_id) on the None edge before the address is kept")
-        ctx.ob("decode", "the kept address is the parsed one with /p2p/<id> removed", render(c2.site_expr(s)) == "std::option::Option::Some{0: addr}" and c2.dominates(c2.call_sites(r"Multiaddr::pop$")[0].bb, s.bb), s.loc(), render(c2.site_expr(s)))
-    c3 = ctx.body(MD, r"iface::query::MdnsPeer::new::\{closure#3\}$")
+        rep_ = [x for x in c2.call_sites(r"Option::(replace|insert|get_or_insert)$") if render(c2.site_expr(x)[2][0]) == MY] + \
+               [x for x in c2.stmt_sites(lambda st: st["k"] == "assign" and any(pr.get("k") == "field" and str(pr.get("n", "")).startswith("upvar:") for pr in st["p"].get("pr", ())))]
+        none_e = lib_mux.none_edges(c2, MY)
+        ctx.ob("decode", "the first id seen is remembered", len(rep_) >= 1 and (POP + "@Some.0@P2p.0") in render(c2.site_expr(rep_[0])) and
+               not (s.bb in c2.reachable([t for _, t in none_e], blocked_nodes=lib.bbs(rep_))), s.loc(), "my_peer_id.replace(peer_id) on the None edge before the address is kept")
+        ctx.ob("decode", "the kept address is the parsed one with /p2p/<id> removed", render(c2.site_expr(s)) == "std::option::Option::Some{0: %s}" % ADDR and bool(pops) and c2.dominates(pops[0].bb, s.bb), s.loc(), render(c2.site_expr(s)))
+    c3 = _child_with(prog, pnew, lambda c: bool(c.agg_sites(r"iface::query::MdnsPeer$")), "MdnsPeer constructor")
     aggs = c3.agg_sites(r"iface::query::MdnsPeer$")
-    r = render(c3.site_expr(aggs[0])) if len(aggs) == 1 else ""
-    ctx.ob("decode", "the reported peer is that id with the collected addresses", r == "libp2p_mdns::behaviour::iface::query::MdnsPeer::MdnsPeer{addrs: ^addrs, peer_id: peer_id, ttl: ^ttl}", _w(c3), r)
+    f3 = dict(c3.site_expr(aggs[0])[4]) if len(aggs) == 1 else {}
+    # the id is the closure's parameter (the Some payload of my_peer_id it is mapped over); the addresses are the collected ones
+    mapped = [render(pnew.site_expr(x)[2][0]) for x in pnew.call_sites(r"Option::map$")]
+    addrs_src = lib_mux.upvar_map(prog, pnew, [x for x in mir.walk(pnew.site_expr(pnew.call_sites(r"Option::map$")[0])) if x[0] == "closure"][0])[1] if pnew.call_sites(r"Option::map$") else {}
+    a_name = f3.get("addrs", ("unknown", "?"))
+    ok3 = f3.get("peer_id", ("unknown",))[0] == "arg" and f3["peer_id"][1] == 2 and a_name[0] == "upvar" and "Iterator::collect(" in render(addrs_src.get(a_name[1].lstrip("*"), ("unknown", "?"))) and len(mapped) == 1
+    ctx.ob("decode", "the reported peer is that id with the collected addresses", ok3, _w(c3), render(c3.site_expr(aggs[0])) if aggs else "?")
 
     # ------------------------------------------------------------------ no panic while parsing
-    dc = ctx.body(MD, r"iface::dns::decode_character_string$")
-    entries = [ctx.body(MD, r"iface::query::MdnsPacket::new_from_bytes$"), ctx.body(MD, r"iface::query::MdnsResponse::new$"), ctx.body(MD, r"iface::query::MdnsPeer::new$"), dc]
+    dc = lib_mux.canon_args(ctx.body(MD, r"iface::dns::decode_character_string$"), ["from"])
+    entries = [ctx.body(MD, r"iface::query::MdnsPacket::new_from_bytes$"), rnew, pnew, dc]
     inv, seen = lib.panic_inventory(prog, MD, entries, depth=2)
     lib.check_inventory(ctx, "nopanic", "packet parsing", inv, {
         "assert:bounds": (1, "from[0] after !from.is_empty()"),
